@@ -168,6 +168,9 @@ def main():
     except Exception as e:               # the reader itself failed on this source text
         terr = 'reader failed: %r' % e
     key, locs, keyed = guarded_proof_phase(ctx, tdata['source_key'] if tdata else None)
+    # where the registration objects put their records (this policy's catalogs, this method's specs) and what they hold,
+    # as translated from core.hpp / detail.hpp on this run (Gen/GenReg.v)
+    vlib.proof_phase_extra(ctx, 'Properties_reg_source')
     if terr and not any('policies.py' in b for b in ctx.broken):
         ctx.broken.append('translator policies.py: ' + terr)
     proof_broken = list(ctx.broken)
